@@ -330,10 +330,20 @@ def np_dtype_for_writer(cfg):
 
 
 def open_writer(drf, chdir, cfg):
+    # the boolean options are documented as truth values: callers pass bools, 0/1, other non-zero integers
+    # or numpy scalars.  The form is a pure function of the configuration (so replays are identical).
+    form = cfg.get("flagform")
+    if form is None:
+        form = (cfg["size"] + cfg["nsub"] + cfg["n"] + len(cfg["uuid"])) % 3
+    cont, cks = cfg["cont"], cfg["cks"]
+    if form == 1:
+        cont, cks = int(bool(cont)), int(bool(cks))
+    elif form == 2:
+        cont, cks = (2 if cont else 0), (np.uint8(255) if cks else np.uint8(0))
     return drf.DigitalRFWriter(
         chdir, cfg.real_dtype(), cfg["sc"], cfg["fc"], cfg["start"], cfg["n"], cfg["d"],
-        uuid_str=cfg["uuid"], compression_level=cfg["comp"], checksum=cfg["cks"], is_complex=cfg["cplx"],
-        num_subchannels=cfg["nsub"], is_continuous=cfg["cont"], marching_periods=False,
+        uuid_str=cfg["uuid"], compression_level=cfg["comp"], checksum=cks, is_complex=cfg["cplx"],
+        num_subchannels=cfg["nsub"], is_continuous=cont, marching_periods=False,
     )
 
 
@@ -386,6 +396,9 @@ def do_write(w, cfg, seed, op, cursor, arr=None):
         return w.rf_write(arr, g[0])
     if op[0] == "wn":
         return w.rf_write(arr)
+    if min(g) < 0:
+        # a caller computing indices in signed arithmetic: plain lists / int64 arrays
+        return w.rf_write_blocks(arr, np.array(g, dtype=np.int64), list(b))
     ga, ba = np.array(g, dtype=np.uint64), np.array(b, dtype=np.uint64)
     if (len(g) + int(g[0])) % 2 == 0:
         # every other call hands over strided (non C-contiguous) uint64 index arrays, e.g. edges[::2]
